@@ -55,6 +55,25 @@ inductive RC
   | fallOff
   deriving DecidableEq, Repr
 
+/-- an argument a function on the transaction path passes on to the next one -/
+inductive Arg
+  | param (i : Nat)                    -- the i-th parameter of the enclosing function (receiver not counted), as it came in
+  | rebound (i : Nat) (rhs : String)   -- that parameter after the function re-bound it: name, … := rhs
+  | bg                                 -- context.Background()
+  | recvField (path : String)          -- a field / method value of the receiver (db.beginTx, db.acceptable)
+  | recv                               -- the receiver itself
+  | local (name : String)              -- a local variable
+  | adapt (nparams callee : Nat) (args : List Nat)  -- func(p₀ … pₙ₋₁) T { return <outer param callee>(p_args…) }
+  | thunk                              -- func() error { return <next call> }  (emitted as its own Fwd)
+  | other (src : String)
+  deriving DecidableEq, Repr
+
+/-- one hop of the path: the callee (source text) and the arguments it is given, in order -/
+structure Fwd where
+  callee : String
+  args : List Arg
+  deriving DecidableEq, Repr
+
 /-- a function value: a name, or a literal  func(err error) bool { return body } -/
 inductive FX
   | name (n : String)
@@ -402,11 +421,21 @@ func (e *emitter) c14WithAcceptable(s *source, rel string) {
 	var lets []string
 	param := ""
 	ok := false
+	nilGuard := false
 	if fd != nil && len(fd.Body.List) == 1 && fd.Type.Params != nil && len(fd.Type.Params.List) == 1 && len(fd.Type.Params.List[0].Names) == 1 {
 		param = fd.Type.Params.List[0].Names[0].Name
 		if r, isRet := fd.Body.List[0].(*ast.ReturnStmt); isRet && len(r.Results) == 1 {
-			if fl, isFn := r.Results[0].(*ast.FuncLit); isFn && len(fl.Body.List) == 1 {
-				if ifs, isIf := fl.Body.List[0].(*ast.IfStmt); isIf && ifs.Init == nil {
+			if fl, isFn := r.Results[0].(*ast.FuncLit); isFn && len(fl.Body.List) >= 1 {
+				body := fl.Body.List
+				// an optional leading guard  if <param> == nil { return }  (fixes/C14-withacceptable-nil.patch)
+				if g, isIf := body[0].(*ast.IfStmt); isIf && len(body) == 2 && g.Init == nil && g.Else == nil &&
+					c14Flat(s.src(g.Cond)) == param+" == nil" && len(g.Body.List) == 1 {
+					if gr, isR := g.Body.List[0].(*ast.ReturnStmt); isR && len(gr.Results) == 0 {
+						nilGuard = true
+						body = body[1:]
+					}
+				}
+				if ifs, isIf := body[0].(*ast.IfStmt); isIf && len(body) == 1 && ifs.Init == nil {
 					assignTo := func(st ast.Stmt, lhs string) (ast.Expr, bool) {
 						a, isA := st.(*ast.AssignStmt)
 						if !isA || len(a.Lhs) != 1 || len(a.Rhs) != 1 || s.src(a.Lhs[0]) != lhs {
@@ -439,9 +468,157 @@ func (e *emitter) c14WithAcceptable(s *source, rel string) {
 	}
 	e.printf("/-- `WithAcceptable(%s)`: the condition of its option closure -/\ndef withAcceptableCond : BX := %s\n\n", param, cond)
 	e.printf("def withAcceptableParam : String := %s\n\n", leanString(param))
+	e.printf("/-- the option closure starts with  if %s == nil { return }  (a nil function is ignored) -/\ndef withAcceptableNilGuard : Bool := %v\n\n", param, nilGuard)
 	e.printf("/-- … what it installs as conn.accept when the condition holds -/\ndef withAcceptableThen : FX := %s\n\n", thn)
 	e.printf("/-- … the local bindings of its else branch -/\ndef withAcceptableLets : List (String × FX) := [%s]\n\n", strings.Join(lets, ", "))
 	e.printf("/-- … what it installs as conn.accept otherwise -/\ndef withAcceptableElse : FX := %s\n\n", els)
+}
+
+// ---- round 5: forwarded argument lists as typed terms
+
+func c14Params(ft *ast.FuncType) []string {
+	var out []string
+	if ft.Params == nil {
+		return out
+	}
+	for _, f := range ft.Params.List {
+		if len(f.Names) == 0 {
+			out = append(out, "_")
+		}
+		for _, n := range f.Names {
+			out = append(out, n.Name)
+		}
+	}
+	return out
+}
+
+func c14Index(xs []string, x string) int {
+	if x == "_" {
+		return -1
+	}
+	for i, y := range xs {
+		if y == x {
+			return i
+		}
+	}
+	return -1
+}
+
+// the right-hand side a top-level statement of fd (re)binds name with ("" if none); function literals too
+func (s *source) c14Binding(fd *ast.FuncDecl, name string) (string, *ast.FuncLit) {
+	for _, st := range fd.Body.List {
+		a, ok := st.(*ast.AssignStmt)
+		if !ok {
+			continue
+		}
+		for i, l := range a.Lhs {
+			if id, ok := l.(*ast.Ident); ok && id.Name == name {
+				if len(a.Rhs) == len(a.Lhs) {
+					if fl, ok := a.Rhs[i].(*ast.FuncLit); ok {
+						return "", fl
+					}
+					return c14Flat(s.src(a.Rhs[i])), nil
+				}
+				return c14Flat(s.src(a.Rhs[0])), nil
+			}
+		}
+	}
+	return "", nil
+}
+
+func (s *source) c14ArgFuncLit(outer []string, fl *ast.FuncLit) string {
+	ps := c14Params(fl.Type)
+	if len(fl.Body.List) == 1 {
+		if r, ok := fl.Body.List[0].(*ast.ReturnStmt); ok && len(r.Results) == 1 {
+			if call, ok := r.Results[0].(*ast.CallExpr); ok {
+				if len(ps) == 0 {
+					return ".thunk"
+				}
+				if id, ok := call.Fun.(*ast.Ident); ok && c14Index(ps, id.Name) < 0 && c14Index(outer, id.Name) >= 0 {
+					var idx []string
+					for _, a := range call.Args {
+						ai, ok := a.(*ast.Ident)
+						if !ok || c14Index(ps, ai.Name) < 0 {
+							return "(.other " + leanString(c14Flat(s.src(fl))) + ")"
+						}
+						idx = append(idx, fmt.Sprint(c14Index(ps, ai.Name)))
+					}
+					return fmt.Sprintf("(.adapt %d %d [%s])", len(ps), c14Index(outer, id.Name), strings.Join(idx, ", "))
+				}
+			}
+		}
+	}
+	return "(.other " + leanString(c14Flat(s.src(fl))) + ")"
+}
+
+func (s *source) c14Arg(fd *ast.FuncDecl, params []string, recv string, e ast.Expr) string {
+	switch x := e.(type) {
+	case *ast.Ident:
+		if x.Name == recv && recv != "" {
+			return ".recv"
+		}
+		rhs, fl := s.c14Binding(fd, x.Name)
+		if i := c14Index(params, x.Name); i >= 0 {
+			if rhs != "" || fl != nil {
+				return fmt.Sprintf("(.rebound %d %s)", i, leanString(rhs))
+			}
+			return fmt.Sprintf("(.param %d)", i)
+		}
+		if fl != nil {
+			return s.c14ArgFuncLit(params, fl)
+		}
+		return "(.local " + leanString(x.Name) + ")"
+	case *ast.CallExpr:
+		if c14Flat(s.src(x)) == "context.Background()" {
+			return ".bg"
+		}
+	case *ast.SelectorExpr:
+		if id, ok := x.X.(*ast.Ident); ok && id.Name == recv && recv != "" {
+			return "(.recvField " + leanString(s.src(x)) + ")"
+		}
+	case *ast.FuncLit:
+		return s.c14ArgFuncLit(params, x)
+	}
+	return "(.other " + leanString(c14Flat(s.src(e))) + ")"
+}
+
+// c14Fwd emits the first call of goName whose callee text is `callee` (function literals included) as a Fwd term:
+// every argument classified relative to the parameters / receiver of goName.
+func (e *emitter) c14Fwd(s *source, rel, goName, leanName, callee string) {
+	fd := s.findFunc(rel, goName)
+	if fd == nil {
+		e.errors = append(e.errors, fmt.Sprintf("function %s not found in %s", goName, rel))
+		e.printf("def %s : Fwd := { callee := \"MISSING\", args := [] }\n\n", leanName)
+		return
+	}
+	recv := ""
+	if fd.Recv != nil && len(fd.Recv.List) == 1 && len(fd.Recv.List[0].Names) == 1 {
+		recv = fd.Recv.List[0].Names[0].Name
+	}
+	params := c14Params(fd.Type)
+	var found *ast.CallExpr
+	n := 0
+	ast.Inspect(fd.Body, func(m ast.Node) bool {
+		if c, ok := m.(*ast.CallExpr); ok && s.src(c.Fun) == callee {
+			if found == nil {
+				found = c
+			}
+			n++
+		}
+		return true
+	})
+	if found == nil || n != 1 {
+		e.errors = append(e.errors, fmt.Sprintf("%s: %d calls of %s (want exactly 1)", goName, n, callee))
+		e.printf("def %s : Fwd := { callee := \"MISSING\", args := [] }\n\n", leanName)
+		return
+	}
+	var as []string
+	for _, a := range found.Args {
+		as = append(as, s.c14Arg(fd, params, recv, a))
+	}
+	e.printf("/-- `%s` in %s: its one call of `%s` — arguments relative to its parameters (%s) -/\ndef %s : Fwd :=\n  { callee := %s, args := [%s] }\n\n",
+		goName, rel, callee, strings.Join(params, ", "), leanName, leanString(callee), strings.Join(as, ", "))
+	e.stringList(leanName+"Params", "parameter names of `"+goName+"`", params)
 }
 
 func init() {
@@ -508,5 +685,30 @@ func init() {
 		e.c14Wiring(s, cc, "NewNodeConn", "wireNewNodeConn")
 		e.c14VarInit(s, "core/stores/sqlx/errors.go", "ErrNotFound", "errNotFoundInit")
 		e.c14VarInit(s, cc, "ErrNotFound", "cachedErrNotFoundInit")
+		// round 5: what every hop of the path hands to the next one, as typed terms (Tie: composed, the caller's
+		// context and body reach `fn(ctx, tx)` for all arguments)
+		e.c14Fwd(s, cc, "CachedConn.Transact", "fwdCachedTransact", "cc.TransactCtx")
+		e.c14Fwd(s, cc, "CachedConn.TransactCtx", "fwdCachedTransactCtx", "cc.db.TransactCtx")
+		e.c14Fwd(s, sc, "commonSqlConn.Transact", "fwdTransact", "db.TransactCtx")
+		e.c14Fwd(s, sc, "commonSqlConn.TransactCtx", "fwdTransactCtx", "db.brk.DoWithAcceptableCtx")
+		e.c14Fwd(s, sc, "commonSqlConn.TransactCtx", "fwdTransactCtxThunk", "transact")
+		e.c14Fwd(s, tx, "transact", "fwdTransactFn", "transactOnConn")
+		e.c14Fwd(s, tx, "transactOnConn", "fwdOnConnBegin", "b")
+		e.c14Fwd(s, tx, "transactOnConn", "fwdOnConnBody", "fn")
+		// … and what every statement method of the transaction's session hands to database/sql
+		for _, m := range []struct{ fn, lean, callee string }{
+			{"txSession.ExecCtx", "fwdTxExecCtx", "exec"}, {"txSession.QueryRowCtx", "fwdTxQueryRowCtx", "query"},
+			{"txSession.QueryRowPartialCtx", "fwdTxQueryRowPartialCtx", "query"},
+			{"txSession.QueryRowsCtx", "fwdTxQueryRowsCtx", "query"},
+			{"txSession.QueryRowsPartialCtx", "fwdTxQueryRowsPartialCtx", "query"},
+			{"txSession.PrepareCtx", "fwdTxPrepareCtx", "t.Tx.PrepareContext"},
+			{"txSession.Exec", "fwdTxExec", "t.ExecCtx"}, {"txSession.Prepare", "fwdTxPrepare", "t.PrepareCtx"},
+			{"txSession.QueryRow", "fwdTxQueryRow", "t.QueryRowCtx"},
+			{"txSession.QueryRowPartial", "fwdTxQueryRowPartial", "t.QueryRowPartialCtx"},
+			{"txSession.QueryRows", "fwdTxQueryRows", "t.QueryRowsCtx"},
+			{"txSession.QueryRowsPartial", "fwdTxQueryRowsPartial", "t.QueryRowsPartialCtx"},
+		} {
+			e.c14Fwd(s, tx, m.fn, m.lean, m.callee)
+		}
 	})
 }
